@@ -836,6 +836,9 @@ def _class_job(acc, arg):
         acc.state(h64(('c05', name, label)))
         if xml is not None:
             acc.nontrivial(h64(xml))
+        if len(acc.samples) < 2:
+            acc.sample({'class': name, 'instance': label, 'validated_against': list(target) if target else 'round trip only',
+                        'xml_bytes': len(xml) if xml is not None else None, 'problems': [k for k, _ in problems]})
         parts = [x.split('#')[0] for x in label.split('+')]
         for kind, detail in problems:
             if label.startswith(('base', 'all-members')):
